@@ -94,6 +94,7 @@ LEAF_NAMES = ["a", "b", "c", "d", "e", "x", "y", "z", "p", "q", "util", "core", 
 # names starting with "py" / containing "init"
 UNUSUAL_NAMES = ["größe", "überblick", "данные", "ข้อมูล", "a·b", "Models", "models", "m01", "Ab", "py", "pyx", "init_x"]
 LEAF_NAMES = LEAF_NAMES + UNUSUAL_NAMES
+COLLIDING = ["a", "ab", "a_b", "Ab", "a·b", "m1", "m01", "models", "Models", "py", "pyx"]
 TWINS = {"m1": "m01", "m01": "m1", "models": "Models", "Models": "models", "ab": "Ab", "Ab": "ab", "a·b": "a", "py": "pyx"}
 
 
@@ -108,7 +109,8 @@ def random_tree(rnd: random.Random, n_min=8, n_max=14, depth=4, root="r", names=
             continue
         if parent.endswith("__init__"):
             continue
-        m = parent + "." + rnd.choice(names)
+        fam = [n for n in COLLIDING if n in names]
+        m = parent + "." + (rnd.choice(fam) if len(fam) >= 3 and rnd.random() < 0.3 else rnd.choice(names))
         if m not in mods:
             mods.append(m)
             twin = TWINS.get(m.rsplit(".", 1)[1])
